@@ -1,4 +1,4 @@
-import OpusModel.EncSkel.Native
+import OpusModel.EncSkelRanges
 import Mathlib.Tactic.Linarith
 /-
   OpusProofs.EncSkelRanges — "no 32-bit overflow" for the budget arithmetic of `opus_encode_native`
@@ -13,50 +13,6 @@ import Mathlib.Tactic.Linarith
 namespace Opus.EncSkel.Proofs
 open Opus Opus.EncDecide Opus.EncSkel
 
-/-- `x` is representable as `opus_int32`. -/
-def Fits32 (x : Int) : Prop := -2147483648 ≤ x ∧ x < 2147483648
-
-instance (x : Int) : Decidable (Fits32 x) := by unfold Fits32; infer_instance
-
-/-- Every value the C expressions of `user_bitrate_to_bitrate` (opus_encoder.c:686-695) form. -/
-def ubTrace (s : St) (frameSize m : Int) : List Int :=
-  let fsz := if frameSize = 0 then s.fs / 400 else frameSize
-  [60 * s.fs, 60 * s.fs / fsz, s.fs * s.channels, 60 * s.fs / fsz + s.fs * s.channels,
-   m * 8, m * 8 * s.fs, m * 8 * s.fs / fsz, userBitrateToBitrate s frameSize m]
-
-/-- Every value formed by opus_encoder.c:1255-1261 (`frame_rate`, `frame_rate12`, `cbr_bytes`, the new
-    `bitrate_bps`) and by the low-budget gate :1267-1268, for bit-rate `b` and budget `m`. -/
-def cbrTrace (fs frameSize b m : Int) : List Int :=
-  let fr12 := 12 * fs / frameSize
-  let c := cbrBytes fs frameSize b m
-  [fs / frameSize, 12 * fs, fr12, 12 * b, 12 * b / 8, fr12 / 2, 12 * b / 8 + fr12 / 2,
-   (12 * b / 8 + fr12 / 2) / fr12, c, c * fr12, c * fr12 * 8, c * fr12 * 8 / 12,
-   3 * (fs / frameSize), 3 * (fs / frameSize) * 8, (max 1 c) * (fs / frameSize), m * (fs / frameSize)]
-
-/-- Every value formed by `compute_equiv_rate` (opus_encoder.c:966-997). -/
-def erTrace (bitrate channels frameRate vbr mode complexity loss : Int) : List Int :=
-  let e0 := bitrate
-  let e1 := if frameRate > 50 then e0 - (40 * channels + 20) * (frameRate - 50) else e0
-  let e2 := if vbr = 0 then e1 - cdiv e1 12 else e1
-  let e3 := cdiv (e2 * (90 + complexity)) 100
-  let e4 := if complexity < 2 then cdiv (e3 * 4) 5 else e3
-  [40 * channels + 20, (40 * channels + 20) * (frameRate - 50), e1, cdiv e1 12, e2, e2 * (90 + complexity), e3,
-   e3 * 4, e4, e4 * loss, 6 * loss + 10, cdiv (e4 * loss) (6 * loss + 10), e3 * 9, cdiv (e3 * 9) 10,
-   e3 * loss, 12 * loss + 20, cdiv (e3 * loss) (12 * loss + 20),
-   computeEquivRate bitrate channels frameRate vbr mode complexity loss]
-
-/-- Every value formed by `compute_redundancy_bytes` (opus_encoder.c:1085-1111). -/
-def rbTrace (maxDataBytes bitrateBps frameRate channels : Int) : List Int :=
-  let baseBits := 40 * channels + 20
-  let rr0 := bitrateBps + baseBits * (200 - frameRate)
-  let rr := cdiv (3 * rr0) 2
-  let avail := maxDataBytes * 8 - 2 * baseBits
-  [baseBits, baseBits * (200 - frameRate), rr0, 3 * rr0, rr, cdiv rr 1600, maxDataBytes * 8, 2 * baseBits, avail,
-   avail * 240, cdiv 48000 frameRate, 240 + cdiv 48000 frameRate, cdiv (avail * 240) (240 + cdiv 48000 frameRate),
-   cdiv (avail * 240) (240 + cdiv 48000 frameRate) + baseBits,
-   cdiv (cdiv (avail * 240) (240 + cdiv 48000 frameRate) + baseBits) 8, 4 + 8 * channels,
-   computeRedundancyBytes maxDataBytes bitrateBps frameRate channels]
-
 /-! ### the API domain -/
 
 /-- The (Fs, frame_size) pairs `frame_size_select` lets through, as an explicit finite set. -/
@@ -67,12 +23,21 @@ theorem legalFrame_cases (fs fsz : Int)
   simp only [legalFrame, decide_eq_true_eq] at hl
   omega
 
-/-- The frame sizes that exist at all (2.5 … 120 ms at the five rates). -/
-theorem legalFrame_values (fs fsz : Int)
-    (hfs : fs = 8000 ∨ fs = 12000 ∨ fs = 16000 ∨ fs = 24000 ∨ fs = 48000) (hl : legalFrame fs fsz = true) :
-    fsz = 20 ∨ fsz = 30 ∨ fsz = 40 ∨ fsz = 60 ∨ fsz = 80 ∨ fsz = 120 ∨ fsz = 160 ∨ fsz = 240 ∨ fsz = 320 ∨ fsz = 480 ∨ fsz = 640 ∨ fsz = 720 ∨ fsz = 800 ∨ fsz = 960 ∨ fsz = 1200 ∨ fsz = 1280 ∨ fsz = 1440 ∨ fsz = 1600 ∨ fsz = 1920 ∨ fsz = 2400 ∨ fsz = 2880 ∨ fsz = 3840 ∨ fsz = 4800 ∨ fsz = 5760 := by
+/-- A legal frame size is one of nine quotients of `Fs` (no hypothesis on `Fs`). -/
+theorem legalFrame_div (fs fsz : Int) (hl : legalFrame fs fsz = true) :
+    fsz = fs / 400 ∨ fsz = fs / 200 ∨ fsz = fs / 100 ∨ fsz = fs / 50 ∨ fsz = fs / 25 ∨ fsz = 3 * fs / 50 ∨
+    fsz = 4 * fs / 50 ∨ fsz = 5 * fs / 50 ∨ fsz = 6 * fs / 50 := by
   simp only [legalFrame, decide_eq_true_eq] at hl
-  omega
+  rcases hl with h | h | h | h | h | h | h | h | h
+  · left; omega
+  · right; left; omega
+  · right; right; left; omega
+  · right; right; right; left; omega
+  · right; right; right; right; left; omega
+  · right; right; right; right; right; left; omega
+  · right; right; right; right; right; right; left; omega
+  · right; right; right; right; right; right; right; left; omega
+  · right; right; right; right; right; right; right; right; omega
 
 /-- `Fs / frame_size` and `12·Fs / frame_size` for a legal frame. -/
 theorem frameRate_range (fs fsz : Int)
@@ -146,9 +111,10 @@ theorem ubTrace_fits (s : St) (fsz m : Int) (h : stOk s = true) (hl : legalFrame
       1 ≤ 60 * s.fs / fsz + s.fs * s.channels ∧ 60 * s.fs / fsz + s.fs * s.channels ≤ 4083200 ∧
       1 ≤ m * 8 * s.fs / fsz ∧ m * 8 * s.fs / fsz ≤ 4083200 := by
     unfold Fits32
-    rcases legalFrame_values s.fs fsz hfs hl with rfl | rfl | rfl | rfl | rfl | rfl | rfl | rfl | rfl | rfl | rfl | rfl | rfl | rfl | rfl | rfl | rfl | rfl | rfl | rfl | rfl | rfl | rfl | rfl <;>
-    rcases hch with hch | hch <;> rw [hch] <;>
-    rcases hfs with hfs | hfs | hfs | hfs | hfs <;> rw [hfs] at hc ⊢ <;> omega
+    rcases legalFrame_div s.fs fsz hl with h | h | h | h | h | h | h | h | h <;>
+    rcases hfs with hfs | hfs | hfs | hfs | hfs <;> rw [hfs] at h ⊢ <;>
+    simp only [Int.reduceDiv, Int.reduceMul] at h <;> subst h <;>
+    rcases hch with hch | hch <;> rw [hch] <;> omega
   obtain ⟨⟨k1, k2, k3, k4, k5, k6, k7⟩, k8, k9, k10, k11⟩ := key
   have hret : 1 ≤ userBitrateToBitrate s fsz m ∧ userBitrateToBitrate s fsz m ≤ 4083200 := by
     rw [hub']; split
